@@ -78,6 +78,14 @@ func init() {
 				continue
 			}
 			first := libraryMutexWaiters()
+			if time.Since(time.Unix(0, last)) < 2*wedgeAfter {
+				// goroutines that are merely busy inside the library get twice the time: a heavy case is not a loop
+				for id := range first {
+					if strings.HasPrefix(id, "spin") {
+						delete(first, id)
+					}
+				}
+			}
 			if len(first) == 0 {
 				continue
 			}
